@@ -8,6 +8,7 @@ package checks
 
 import (
 	"fmt"
+	"math"
 	"os"
 	"runtime"
 	"runtime/pprof"
@@ -50,7 +51,12 @@ func genThreadCase(t *rapid.T) ThreadCase {
 		// own key range: 100*ci+1 .. 100*ci+6
 		var keys []Val
 		for k := 1; k <= 6; k++ {
-			keys = append(keys, vInt(int64(100*ci+k)))
+			if k%2 == 0 {
+				// non-integral REAL keys as well (other code paths in the key's level function)
+				keys = append(keys, vReal(float64(100*ci+k)+0.5))
+			} else {
+				keys = append(keys, vInt(int64(100*ci+k)))
+			}
 		}
 		cfg := stmtGenCfg{keys: keys, cols: wideCols, vals: smallVals(), multiRow: false, wIns: 5, wUpd: 3, wDel: 2}
 		n := rapid.IntRange(3, 25).Draw(t, "nops")
@@ -213,10 +219,15 @@ func runStream(c ThreadCase, ci int, bucket string) threadResult {
 	}
 	ownKey := func(cell string) bool {
 		var k int
-		if _, err := fmt.Sscanf(cell, "I:%d", &k); err != nil {
-			return false
+		if _, err := fmt.Sscanf(cell, "I:%d", &k); err == nil {
+			return k > 100*ci && k <= 100*ci+6
 		}
-		return k > 100*ci && k <= 100*ci+6
+		var bits uint64
+		if _, err := fmt.Sscanf(cell, "R:%x", &bits); err == nil {
+			f := math.Float64frombits(bits)
+			return f > float64(100*ci) && f <= float64(100*ci+6)+0.5
+		}
+		return false
 	}
 	myDeadline := fmt.Sprintf("209%d-01-01 00:00:00", ci)
 	deadlineSet := false
